@@ -11,7 +11,7 @@
   still go through the rank test; `is_file` lookup): every clause below is a positive statement.
 -/
 import Mathlib.Analysis.Real.Sqrt
-import CijProofs.Lemmas.Fill
+import CijProofs.Lemmas.FillPerm
 set_option linter.unusedSectionVars false
 namespace Cij.C09
 open Cij Cij.Fill
@@ -149,21 +149,144 @@ theorem ssq_is_sum_of_squares {A : List (List α)} {bs : List (List α)} {s : So
   | none => simp [hm] at hs
   | some xs => simp [hm] at hs; rw [← hs]
 
-/-! #### column order and letter case (partial) -/
+/-! #### column order and letter case -/
 
-/-  Full statement (not proved): for tables `t`, `t'` that are the same map lower-cased-name ↦ values,
-    `fill … t` and `fill … t'` are the same map.  Proved below: (a) recognition only looks at the lower-cased
-    names; (b) the rank decision only depends on the SET of stacked rows; (c) the solution of a determined system
-    does not depend on the order of the equations.  Missing: the bookkeeping of write-back/drop under permutation
-    and the rank-deficient (minimum-norm) branch — both compared on the real code by the harness. -/
+/-  `Rearranged t t'` (Lemmas/FillPerm.lean): `t'` consists of the columns of `t` in any order, every name possibly
+    re-cased (`∃ t'', List.Forall₂ (fun c c' => c.1.toLower = c'.1.toLower ∧ c.2 = c'.2) t t'' ∧ t''.Perm t'`).
+    `NoCaseDup t`: no two columns of `t` differ by letter case only.  `hrect`: all columns have `n` rows.
+    `huser`: IF the system name means a user-supplied relations file, its rows have at most 21 coefficients (the
+    packaged systems have exactly 21: `packaged_coeffs_length`, checked on `Generated.constraintSystems`; sympy's
+    `linear_eq_to_matrix` over the 21 symbols cannot produce more).  No hypothesis on the solver: the model's own
+    solve is PROVED to succeed for `t'` whenever it does for `t` (`lstsq_perm`), so also the outcome `Err.solver`
+    is the same.  Both branches are covered: determined, and rank-deficient under `ignore_rank` (the model's
+    `x = Aᵀ z` is the minimum-norm solution whatever solution `z` the elimination picks: `rowspace_normalEq_unique`). -/
 
+/-- **Column order and letter case are irrelevant** (full clause).  There is ONE outcome `r` of the solve and
+    decision stages — an error, or the solved tensors `xs`, one per volume row — common to `t` and `t'`, and
+    `fill` returns, for either table, that error or
+
+      `existingPart P xs ·  ++  newPart P xs t`
+
+    * `existingPart P xs u = (u.map (updCol xs)).filter (keepCol P)`: the columns of the INPUT table `u`, in the
+      input order, each name as spelled in the input; the values of a modulus column replaced by the solved component
+      (`updCol`), other columns untouched; negligible modulus columns dropped (`keepCol`);
+    * `newPart P xs t`: the components no input column stands for, named in lower case, in the order of the 21
+      symbols, negligible ones dropped — literally the same list for `t` and `t'`.
+
+    So the two results have the same status, and when they succeed they differ exactly as the inputs do: the block of
+    surviving input columns is rearranged / re-cased in the same way (`Rearranged`), the appended block is identical. -/
+theorem column_order_case_irrelevant (env : Env) (sys : String) (P : Params α) (t t' : Table α) (n : Nat)
+    (hre : Rearranged t t') (hrect : ∀ c ∈ t, c.2.length = n) (hnd : NoCaseDup t) (hnd' : NoCaseDup t')
+    (huser : ∀ rows, env.userFile sys = some rows → ∀ r ∈ rows, r.coeffs.length ≤ nsym) :
+    ∃ r : Except Err (List (List α)),
+      fill env (some sys) P t = r.map (fun xs => existingPart P xs t ++ newPart P xs t) ∧
+      fill env (some sys) P t' = r.map (fun xs => existingPart P xs t' ++ newPart P xs t) ∧
+      ∀ xs, Rearranged (existingPart P xs t) (existingPart P xs t') := by
+  refine ⟨fillSol env sys P t, ?_, ?_, fun xs => hre.existingPart P xs⟩
+  · have hf : finish P t = fun xs => existingPart P xs t ++ newPart P xs t :=
+      funext fun xs => finish_closed P xs hnd
+    rw [fill_eq_fillSol, hf]
+  · have hf : finish P t' = fun xs => existingPart P xs t' ++ newPart P xs t :=
+      funext fun xs => by rw [finish_closed P xs hnd', hre.newPart P xs]
+    rw [fill_eq_fillSol, ← fillSol_rearranged env sys P hre hrect (resolve_coeffs_length env sys huser), hf]
+
+/-- same status: the same error, or both succeed (`system = None` included) -/
+theorem column_order_case_same_status (env : Env) (system : Option String) (P : Params α) (t t' : Table α) (n : Nat)
+    (hre : Rearranged t t') (hrect : ∀ c ∈ t, c.2.length = n) (hnd : NoCaseDup t) (hnd' : NoCaseDup t')
+    (huser : ∀ sys rows, env.userFile sys = some rows → ∀ r ∈ rows, r.coeffs.length ≤ nsym) :
+    (∀ e, fill env system P t = .error e ↔ fill env system P t' = .error e) ∧
+    ((∃ out, fill env system P t = .ok out) ↔ (∃ out', fill env system P t' = .ok out')) := by
+  cases system with
+  | none => exact ⟨fun e => by simp [fill], ⟨fun _ => ⟨t', rfl⟩, fun _ => ⟨t, rfl⟩⟩⟩
+  | some sys =>
+    obtain ⟨r, h1, h2, _⟩ := column_order_case_irrelevant env sys P t t' n hre hrect hnd hnd' (huser sys)
+    rw [h1, h2]
+    cases r with
+    | error e0 => simp [Except.map]
+    | ok xs => simp [Except.map]
+
+/-- … and when they succeed the results are the SAME MAP: as lists, `out'` is `out` rearranged / re-cased exactly as
+    the input was; hence every (lower-cased name ↦ value list) pair of one is a pair of the other -/
+theorem column_order_case_same_map (env : Env) (system : Option String) (P : Params α) (t t' : Table α) (n : Nat)
+    (hre : Rearranged t t') (hrect : ∀ c ∈ t, c.2.length = n) (hnd : NoCaseDup t) (hnd' : NoCaseDup t')
+    (huser : ∀ sys rows, env.userFile sys = some rows → ∀ r ∈ rows, r.coeffs.length ≤ nsym)
+    (out out' : Table α) (ho : fill env system P t = .ok out) (ho' : fill env system P t' = .ok out') :
+    Rearranged out out' ∧
+    ∀ (name : String) (vals : List α),
+      (∃ c ∈ out, c.1.toLower = name ∧ c.2 = vals) ↔ (∃ c' ∈ out', c'.1.toLower = name ∧ c'.2 = vals) := by
+  have key : Rearranged out out' := by
+    cases system with
+    | none =>
+      simp only [fill, Except.ok.injEq] at ho ho'
+      rw [← ho, ← ho']; exact hre
+    | some sys =>
+      obtain ⟨r, h1, h2, h3⟩ := column_order_case_irrelevant env sys P t t' n hre hrect hnd hnd' (huser sys)
+      rw [h1] at ho; rw [h2] at ho'
+      cases r with
+      | error e0 => simp [Except.map] at ho
+      | ok xs =>
+        simp only [Except.map, Except.ok.injEq] at ho ho'
+        rw [← ho, ← ho']
+        exact (h3 xs).append_right _
+  exact ⟨key, key.mem_iff⟩
+
+/-- pure reordering (no re-casing): the result is a permutation of the result — the surviving input columns are
+    permuted as in the input, the appended block stays where it is -/
+theorem column_order_irrelevant (env : Env) (sys : String) (P : Params α) (t t' : Table α) (n : Nat)
+    (hp : t.Perm t') (hrect : ∀ c ∈ t, c.2.length = n) (hnd : NoCaseDup t)
+    (huser : ∀ rows, env.userFile sys = some rows → ∀ r ∈ rows, r.coeffs.length ≤ nsym) :
+    ∃ r : Except Err (List (List α)),
+      fill env (some sys) P t = r.map (fun xs => existingPart P xs t ++ newPart P xs t) ∧
+      fill env (some sys) P t' = r.map (fun xs => existingPart P xs t' ++ newPart P xs t) ∧
+      ∀ xs, (existingPart P xs t).Perm (existingPart P xs t') := by
+  have hnd' : NoCaseDup t' := fun c hc c' hc' h => hnd c (hp.symm.subset hc) c' (hp.symm.subset hc') h
+  obtain ⟨r, h1, h2, _⟩ :=
+    column_order_case_irrelevant env sys P t t' n (Rearranged.of_perm hp) hrect hnd hnd' huser
+  exact ⟨r, h1, h2, fun xs => (hp.map _).filter _⟩
+
+/-- the documented naming rule and the order of the output: the surviving input columns come first, in input order
+    and with the input spelling (their names are a sublist of the input names); every appended column is a symbol,
+    spelled in lower case, that no input column stands for -/
+theorem output_names_and_order (P : Params α) (xs : List (List α)) (t : Table α) :
+    ((existingPart P xs t).map (·.1)).Sublist (t.map (·.1)) ∧
+    ∀ e ∈ newPart P xs t, e.1 ∈ symbolNames ∧ e.1.toLower = e.1 ∧ ∀ c ∈ t, c.1.toLower ≠ e.1 := by
+  constructor
+  · have h1 : (t.map (updCol xs)).map (·.1) = t.map (·.1) := by
+      rw [List.map_map]
+      apply List.map_congr_left
+      intro c _
+      simp only [Function.comp, updCol]
+      cases symIdx c.1 <;> rfl
+    rw [← h1]
+    exact (List.filter_sublist).map _
+  · intro e he
+    unfold newPart at he
+    obtain ⟨q, hq, hqe⟩ := List.mem_filterMap.1 (List.mem_filter.1 he).1
+    split at hqe
+    · simp at hqe
+    · rename_i hany
+      injection hqe with hqe
+      subst hqe
+      refine ⟨symPairs_names q hq, symbols_lower q.2 (symPairs_names q hq), ?_⟩
+      intro c hc hcq
+      exact hany (List.any_eq_true.2 ⟨c, hc, by simp [hcq]⟩)
+
+/-- the order of the equations is irrelevant for the model's least squares — outcome (also its own failure `none`)
+    and vector, in the determined AND in the rank-deficient (minimum-norm) branch -/
+theorem equation_order_irrelevant {n : Nat} {A A' : List (List α)} {b b' : List α} (hb : b.length = A.length)
+    (hb' : b'.length = A'.length) (hp : (List.zip A b).Perm (List.zip A' b')) (hrows : ∀ a ∈ A, a.length ≤ n) :
+    lstsq n A b = lstsq n A' b' := lstsq_perm hb hb' hp hrows
+
+/-- (lemmas kept from the partial version) recognition only looks at the lower-cased names … -/
 theorem column_case_irrelevant_partial (names names' : List String)
     (h : names.map String.toLower = names'.map String.toLower) : recognise names = recognise names' :=
   recognise_case names names' h
 
+/-- … the rank decision only depends on the SET of stacked rows … -/
 theorem column_order_irrelevant_rank_partial {n : Nat} {A A' : List (List α)} (h : ∀ r, r ∈ A ↔ r ∈ A') :
     (kerWitness n A).isSome = (kerWitness n A').isSome := kerWitness_isSome_congr h
 
+/-- … and two checked solutions of a determined system coincide -/
 theorem column_order_irrelevant_solution_partial {n : Nat} {A A' : List (List α)} {b b' x x' : List α}
     (hb : b.length = A.length) (hp : (List.zip A b).Perm (List.zip A' b'))
     (hker : kerWitness n A = none) (hx : lstsq n A b = some x) (hx' : lstsq n A' b' = some x') : x = x' :=
@@ -333,5 +456,40 @@ example : outcome (fill env0 (some "cubic") (P0 false false)
 
 example : outcome (fill env0 (some "cubic") (P0 false false) [("c21", [1]), ("c11", [300])])
     = "ValueError" := by decide +kernel
+
+/-! non-vacuity of the column-order / letter-case clause: a rectangular two-volume table, the same columns in another
+    order with two names re-cased; determined (both flags off) and rank-deficient (`ignore_rank`) -/
+
+def tA : Table Rat := [("V", [100, 90]), ("c11", [300, 310]), ("c12", [100, 105]), ("c44", [80, 82])]
+def tB : Table Rat := [("C44", [80, 82]), ("V", [100, 90]), ("c11", [300, 310]), ("C12", [100, 105])]
+
+theorem tA_tB_rearranged : Rearranged tA tB :=
+  ⟨[("V", [100, 90]), ("c11", [300, 310]), ("C12", [100, 105]), ("C44", [80, 82])],
+    by unfold Recased SameCol tA; decide +kernel, by decide +kernel⟩
+
+theorem tA_tB_hyps : NoCaseDup tA ∧ NoCaseDup tB ∧ ∀ c ∈ tA, c.2.length = 2 := by
+  unfold NoCaseDup; decide +kernel
+
+/-- the hypotheses of `column_order_case_irrelevant` are satisfiable: the theorem applied to `tA`, `tB` -/
+example : ∃ r : Except Err (List (List Rat)),
+    fill env0 (some "cubic") (P0 false false) tA =
+      r.map (fun xs => existingPart (P0 false false) xs tA ++ newPart (P0 false false) xs tA) ∧
+    fill env0 (some "cubic") (P0 false false) tB =
+      r.map (fun xs => existingPart (P0 false false) xs tB ++ newPart (P0 false false) xs tA) ∧
+    ∀ xs, Rearranged (existingPart (P0 false false) xs tA) (existingPart (P0 false false) xs tB) :=
+  column_order_case_irrelevant env0 "cubic" (P0 false false) tA tB 2 tA_tB_rearranged tA_tB_hyps.2.2
+    tA_tB_hyps.1 tA_tB_hyps.2.1 (fun rows h => by simp [env0] at h)
+
+/-- … evaluated: the table of the first example above (`V, c11, c12, c44`, determined) with the columns in another
+    order and two names re-cased — same values per (lower-cased) name, input spelling kept, the surviving input columns
+    in the input order, the appended lower-case block identical -/
+example : outcome (fill env0 (some "cubic") (P0 false false)
+      [("C44", [80]), ("V", [100]), ("c11", [300]), ("C12", [100])])
+    = "ok:C44=80,V=100,c11=300,C12=100,c13=100,c22=300,c23=100,c33=300,c55=80,c66=80" := by decide +kernel
+
+/-- rank-deficient branch (`ignore_rank`, minimum-norm solution; compare the fourth example above): also independent
+    of order and case -/
+example : outcome (fill env0 (some "cubic") (P0 false true) [("C12", [100]), ("c22", [300]), ("C11", [300])])
+    = "ok:C12=100,c22=300,C11=300,c13=100,c23=100,c33=300" := by decide +kernel
 
 end Cij.C09
